@@ -274,7 +274,12 @@ def gen_case(rng, cls=None, force=None):
         # features_dropna flag to True, which then differs from the global dropna
         case["edit_op"] = force.get("edit_op") or {"feat": rng.randrange(8), "pick": rng.randrange(100),
                                                    "mode": rng.choice(["group", "replace"]),
-                                                   "nan": rng.random() < 0.4}
+                                                   "kind": rng.choice(EDIT_KINDS)}
+        if "more_edits" in force:
+            case["more_edits"] = force["more_edits"]
+        elif "edit_op" not in force and rng.random() < 0.4:
+            case["more_edits"] = [{"feat": case["edit_op"]["feat"], "pick": rng.randrange(100),
+                                   "mode": "group", "kind": rng.choice(EDIT_KINDS)}]
     m = 6
     probes = {k: {} for k in ("inside", "outside", "nan", "unseen")}
     for f in feats:
@@ -386,26 +391,77 @@ def fit_object(case):
         js["dropna"] = case["edit"]["dropna"]
         js["features_dropna"] = {f: case["edit"]["dropna"] for f in js["features"]}
         obj = load_discretizer(js)
-    op = case.get("edit_op")
-    if op and op.get("nan"):                 # manual edit: NaN grouped into an existing modality
-        names = [n for n in obj.values_orders
-                 if obj.str_nan in list(obj.values_orders[n])
-                 and list(obj.values_orders[n].get(obj.str_nan)) == [obj.str_nan]]
-        for name in (names[op["feat"] % len(names):] + names[:op["feat"] % len(names)] if names else []):
-            leaders = [k for k in obj.values_orders[name] if k not in (obj.str_nan, obj.str_default)]
-            if leaders:
-                obj.update_discretizer(name, op["mode"], NAN, leaders[op["pick"] % len(leaders)])
-                if not op.get("all"):
-                    break
-    elif op:                                 # manual edit before dumping
-        names = list(obj.values_orders)
-        if names:
-            name = names[op["feat"] % len(names)]
-            leaders = [k for k in obj.values_orders[name] if k not in (obj.str_nan, obj.str_default)]
-            if len(leaders) >= 2:
-                i = op["pick"] % (len(leaders) - 1)
-                obj.update_discretizer(name, op["mode"], leaders[i], leaders[i + 1])
+    applied = []
+    for op in [case.get("edit_op")] + list(case.get("more_edits", [])):
+        if op:                               # manual edits (update_discretizer) before dumping
+            applied.append(apply_edit(obj, op))
+    obj._c06_edits_applied = applied
     return obj
+
+
+NEW_VALUE = "zzz"        # a category never seen at fit (also present in the "unseen" probe frames)
+EDIT_KINDS = ["merge", "replace_merge", "replace_member", "group_into_new", "group_new_value", "nan"]
+
+
+def edit_kind(op):
+    return op.get("kind") or ("nan" if op.get("nan") else ("merge" if op.get("mode") == "group"
+                                                           else "replace_merge"))
+
+
+def apply_edit(obj, op):
+    """one update_discretizer call; leaders / members are picked at run time on the first feature
+    (starting at op['feat']) where the edit applies.  Kinds:
+      merge            group leader i into leader i+1                      (one group less)
+      replace_merge    mode='replace' between two adjacent leaders          (one group less)
+      replace_member   mode='replace': a member of a group becomes its leader      (same count)
+      group_into_new   a qualitative group is grouped into a value that did not exist (same count)
+      group_new_value  a value that did not exist is grouped into a qualitative group (same count)
+      nan              missing values are grouped into a modality: NaN is a modality of its own
+                       (dropna=False objects) or was never seen at fit (same count)
+    Returns the kind when an edit was applied, None otherwise."""
+    kind = edit_kind(op)
+    names = list(obj.values_orders)
+    if not names:
+        return None
+    k0 = op["feat"] % len(names)
+    special = (obj.str_nan, obj.str_default)
+    done = None
+    for name in names[k0:] + names[:k0]:
+        vo = obj.values_orders[name]
+        qual = name in obj.qualitative_features
+        leaders = [k for k in vo if k not in special]
+        pick = op["pick"]
+        if kind == "nan":
+            own = obj.str_nan in list(vo) and list(vo.get(obj.str_nan)) == [obj.str_nan]
+            unseen = not vo.contains(obj.str_nan)
+            if leaders and (own or unseen):
+                # (mode='replace' with a never-seen NaN is refused by update_discretizer: group only)
+                obj.update_discretizer(name, op.get("mode", "group") if own else "group", NAN,
+                                       leaders[pick % len(leaders)])
+                done = kind
+                if op.get("all"):
+                    continue
+        elif kind in ("merge", "replace_merge") and len(leaders) >= 2:
+            i = pick % (len(leaders) - 1)
+            obj.update_discretizer(name, "group" if kind == "merge" else "replace", leaders[i], leaders[i + 1])
+            done = kind
+        elif kind == "replace_member" and (qual or op.get("quant_ok")):
+            groups = [(k, [m for m in vo.get(k) if m != k and m not in special and isinstance(m, str) == qual])
+                      for k in leaders]
+            groups = [(k, ms) for k, ms in groups if ms]
+            if groups:
+                k, ms = groups[pick % len(groups)]
+                obj.update_discretizer(name, "replace", k, ms[pick % len(ms)])
+                done = kind
+        elif kind == "group_into_new" and qual and leaders and not vo.contains(NEW_VALUE):
+            obj.update_discretizer(name, "group", leaders[pick % len(leaders)], NEW_VALUE)
+            done = kind
+        elif kind == "group_new_value" and qual and leaders and not vo.contains(NEW_VALUE):
+            obj.update_discretizer(name, "group", NEW_VALUE, leaders[pick % len(leaders)])
+            done = kind
+        if done:
+            break
+    return done
 
 
 class _Pairs(list):
@@ -584,6 +640,7 @@ def observe(case, obj):
         if not leq(list(g), list(g.content)):
             out["content_in_list_order"] = False
     out["feats"] = feats
+    out["edits_applied"] = [k for k in getattr(obj, "_c06_edits_applied", []) if k]
     out["features_dropna_differs_from_dropna"] = any(bool(v) != bool(obj.dropna)
                                                      for v in obj.features_dropna.values())
     try:
@@ -930,6 +987,24 @@ class C06(Prop):
                          "kind": rng.choice(["cat", "cat", "ord", "quant"])}
                 if force["kind"] == "cat":
                     force["cflavour"] = rng.choice(["letters", "ints", "mixed", "numstr"])
+            elif i % 10 == 7:
+                # family: objects edited with update_discretizer after fit (one or two edits, every
+                # class, both output dtypes), then the round trip.  Edits that keep the number of
+                # groups (new leader, new value, never-seen NaN) are over-represented.
+                cls = rng.choice(CLASSES[:3] + list(CARVERS))
+                first = rng.choice(["merge", "replace_member", "group_into_new", "group_new_value", "nan",
+                                    "replace_member", "group_into_new"])
+                ops = [{"feat": rng.randrange(8), "pick": rng.randrange(100), "mode": "group", "kind": first}]
+                if first == "replace_member" or rng.random() < 0.5:
+                    # a merge first, so that a group with several members exists
+                    ops = [{"feat": ops[0]["feat"], "pick": rng.randrange(100), "mode": "group",
+                            "kind": rng.choice(["merge", "replace_merge"])}] + ops
+                kinds = [k for k in ALLOWED[cls] if k != "quant"] or ["quant"]
+                force = {"edit_op": ops[0], "more_edits": ops[1:], "kind": rng.choice(kinds), "nfeat": 1,
+                         "n": rng.choice([80, 120, 200]), "edit": rng.random() < 0.5}
+                if cls == "QuantitativeDiscretizer":
+                    ops[-1]["kind"] = rng.choice(["nan", "merge", "replace_merge"])
+                    force["nan_share"] = 0
             elif i % 10 == 9:
                 # family: objects with dropna=False whose missing values are manually grouped before
                 # dumping (features_dropna then differs from the global dropna)
@@ -981,9 +1056,8 @@ class C06(Prop):
         kinds = ",".join(sorted(f"{f['kind']}:{f['flavour']}" for f in case["features"]))
         p = case["params"]
         dv = case.get("dev", {}).get("kind", "-") + ("+rej" if out.get("dev_rejects") else "")
-        eo = case.get("edit_op", {})
         cfg = (f"{p.get('output_dtype')}/{p.get('dropna')}/{'edit' if case.get('edit') else '-'}/"
-               f"{eo.get('mode', '-')}{'-nan' if eo.get('nan') else ''}/"
+               f"{'+'.join(out.get('edits_applied', [])) or '-'}/"
                f"fd={out.get('features_dropna_differs_from_dropna')}/dev={dv}")
         pr = ",".join(sorted({k for k, _ in problems_of(case, out)})) or "holds"
         tk = ",".join(f"{k}={v}" for k, v in sorted(out.get("transform_kinds", {}).items()))
@@ -996,7 +1070,9 @@ class C06(Prop):
         causes = []
         if "history_dropped" in kinds:
             causes.append(("reloaded_carver_to_json_drops_history", {"history_dropped"}))
-        if case.get("edit_op", {}).get("mode") == "replace" and "second_dump_values_orders_key_order" in kinds:
+        ops = [op for op in [case.get("edit_op")] + list(case.get("more_edits", [])) if op]
+        if (any(edit_kind(op).startswith("replace") for op in ops)
+                and "second_dump_values_orders_key_order" in kinds):
             causes.append(("edited_leader_content_key_order", {"second_dump_values_orders_key_order"}))
         sent = {"values_orders_differ", "load_raised", "behaviour_differs", "second_dump_values_orders_differ"}
         if has_sentinel(case) and kinds & sent:
@@ -1085,6 +1161,8 @@ class C06(Prop):
                 h["features_order_differs_in_second_dump"] += 1
             if not o.get("content_in_list_order", True):
                 h["content_dict_not_in_list_order"] += 1
+            for k in o.get("edits_applied", []):
+                inc(h.setdefault("edits_applied_before_dumping", {}), f"{k}/{c['params'].get('output_dtype')}")
             if c.get("dev"):
                 d = h.setdefault("carvers_fitted_with_dev_sample", {})
                 inc(d, c["dev"]["kind"])
